@@ -68,6 +68,9 @@ pub struct ReqC7 {
     /// (an order is identified by exchange, instrument, strategy *and* client order id)
     #[serde(default)]
     pub twin_of: Option<usize>,
+    /// the open request carries a negative quantity (a sell encoded as a negative amount)
+    #[serde(default)]
+    pub neg_qty: bool,
 }
 
 #[derive(Clone, Debug, Serialize, Deserialize)]
@@ -163,6 +166,7 @@ impl Sim for SimC7 {
             };
             reqs.push(ReqC7 {
                 twin_of: if sub == 1 && n_inst > 1 && rng.chance(1, 6) { Some(rng.usize(64)) } else { None },
+                neg_qty: sub == 1 && rng.chance(1, 10),
                 at_ms: t,
                 open: rng.chance(3, 5),
                 inst: rng.usize(n_inst),
@@ -372,7 +376,7 @@ impl Sim for SimC7 {
                     sent_at.push(start.elapsed().as_millis() as u64);
                     let key = okey(0, r.inst, &cids[k]);
                     let req = if r.open {
-                        ExecutionRequest::Open(request_open(key, true, dec(100), dec(2), OrderKind::Limit))
+                        ExecutionRequest::Open(request_open(key, true, dec(100), dec(if r.neg_qty { -2 } else { 2 }), OrderKind::Limit))
                     } else {
                         ExecutionRequest::Cancel(request_cancel(key, None))
                     };
@@ -801,6 +805,10 @@ pub struct ScenarioC4 {
     /// open order (true) or with no orders (false); empty = snapshots list no instruments at all
     #[serde(default)]
     pub snap_orders: Vec<bool>,
+    /// per asset index: the balance its exchange's initial account snapshot reports for it (None =
+    /// the snapshot leaves that asset out)
+    #[serde(default)]
+    pub snap_balances: Vec<Option<i64>>,
 }
 
 pub struct SimC4;
@@ -899,6 +907,7 @@ impl Sim for SimC4 {
             tokio_seed: 0,
             client_delay_ms: 0,
             snap_orders: vec![],
+            snap_balances: vec![],
         };
         let ii = c4_instruments(&tmp);
         let (n_inst, n_assets) = (ii.instruments().len(), ii.assets().len());
@@ -951,6 +960,7 @@ impl Sim for SimC4 {
             tokio_seed: rng.next_u64(),
             client_delay_ms: *rng.pick(&[0u64, 0, 1, 7]),
             snap_orders: if rng.chance(1, 2) { (0..n_inst).map(|_| rng.chance(1, 2)).collect() } else { vec![] },
+            snap_balances: if rng.chance(1, 2) { (0..n_assets).map(|_| rng.chance(1, 2).then(|| rng.range(1, 10_000))).collect() } else { vec![] },
         }
     }
 
@@ -1117,7 +1127,18 @@ impl Sim for SimC4 {
                     b,
                     UnindexedAccountSnapshot {
                         exchange: ex.value,
-                        balances: vec![],
+                        balances: instruments
+                            .assets()
+                            .iter()
+                            .filter(|a| a.value.exchange == ex.value)
+                            .filter_map(|a| {
+                                sc.snap_balances.get(a.key.0).copied().flatten().map(|total| AssetBalance {
+                                    asset: a.value.asset.name_exchange.clone(),
+                                    balance: Balance::new(dec(total), dec(total)),
+                                    time_exchange: ts(1),
+                                })
+                            })
+                            .collect(),
                         instruments: listed,
                     },
                 );
@@ -1154,6 +1175,19 @@ impl Sim for SimC4 {
             tokio::time::sleep(Duration::from_millis(1)).await;
             while let Ok(ev) = merged_rx.rx.try_recv() {
                 let _ = engine.process(EngineEvent::<DataKind>::Account(ev));
+            }
+            // balances reported by an exchange's account snapshot land on exactly the assets named, and
+            // an asset the snapshot leaves out is left alone - on every exchange
+            if sc.snap_balances.iter().any(|b| b.is_some()) {
+                probes.push("account_snapshot_with_partial_balances");
+                for a in instruments.assets() {
+                    let e = instruments.find_exchange_index(a.value.exchange).unwrap().0;
+                    let want = if traded[e] { sc.snap_balances.get(a.key.0).copied().flatten() } else { None };
+                    let got = engine.state.assets.asset_index(&a.key).balance.map(|b| b.value.total);
+                    if got != want.map(dec) {
+                        return (Some(("X7_event_applied_to_wrong_item".to_string(), a.key.0, format!("initial account snapshots report {:?} for asset index {} = ({}, {}): the engine holds {:?}", want, a.key.0, a.value.exchange, a.value.asset.name_exchange, got))), lines, sigs, probes, 0);
+                    }
+                }
             }
             // orders listed by an exchange's account snapshot land on exactly the instrument named
             if !sc.snap_orders.is_empty() {
@@ -1606,6 +1640,7 @@ impl Sim for SimC4 {
         vec![
             "request_to_non_first_exchange",
             "account_snapshot_lists_instruments",
+            "account_snapshot_with_partial_balances",
             "two_requests_share_client_order_id",
             "balance_for_untracked_wallet_of_tracked_asset",
             "names_differing_only_in_case",
